@@ -322,6 +322,11 @@ PROPS["C17"] = dict(
 )
 
 PROPS["C18"] = dict(
+    claim=dict(
+        text="PARTIAL. Machine-checked proof (Coq 8.16) of the glue of binding.Auto: methods other than POST/PUT/PATCH bind from the query string whatever the Content-Type (C18_source_query); for each documented media type (url-encoded form, multipart form, JSON, application/xml, text/xml), with no parameters or any parameters free of '/', the transcribed substring dispatch selects the documented source (C18_source_documented, via a lemma that a marker beginning with '/' cannot match inside or across such parameters); a Content-Type containing none of the four markers is an error (C18_source_unknown); a successful bind implies the decoded struct passed validation whenever the validator is enabled (C18_validated); ASSUMING the codec law decode(encode x) = x, encoding a valid value and binding it back yields it (C18_roundtrip); a codec error is an error of the bind (C18_error). K5 (substring tests: application/jsonx binds as JSON) is a refuted witness and a known finding. Tie to the code: method x Content-Type table with a different value in every source; round trips of generated struct values through JSON, XML, form, multipart and query; malformed bodies (error, never panic); validation on/off x valid/invalid.",
+        note="PARTIAL: encoding/json, encoding/xml, formam, gookit/validate and net/http form parsing are third-party / standard-library code: Coq states their laws as hypotheses (section variables) and the harness only samples them. Trusted: Coq kernel, extraction, driver, harness.",
+        technique="Coq proof of the source-selection table and the decode-then-validate glue (codecs as hypotheses) + sampled round-trip / malformed-input exploration"),
+    theorems=["C18_source_query", "C18_source_documented", "C18_source_unknown", "C18_validated", "C18_roundtrip", "C18_error"],
     n=dict(quick=3000, thorough=60000),
     consts=[],
     rule="cases: (a) method x Content-Type from a table of 20 (documented types with and without parameters, empty, unknown, near-miss types), every source carrying a "
@@ -331,4 +336,21 @@ PROPS["C18"] = dict(
          "Non-trivial = body-method source case or a round trip.",
     trusted_base=["ASSUMED (section variables, sampled by the tie): encoding/json, encoding/xml, monoculum/formam, gookit/validate, net/http form parsing"],
     assumptions=["codec round-trip laws decode(encode v) = v are hypotheses of the round-trip theorem; the harness samples them"],
+)
+
+PROPS["C19"] = dict(
+    claim=dict(
+        text="PARTIAL. Machine-checked proof (Coq 8.16) over the writer model of C08: Text / HTML / JSONBytes / Blob commit the given positive status, set the documented (given) Content-Type and write exactly the bytes, for every short-write script (C19_blob); NoContent commits 204; HTTPError commits the status and writes msg+newline; the pkg/render renderers never override a Content-Type that is already set and set the documented one otherwise (C19_no_override, C19_sets_when_absent); with an arbitrary encoder, JSON commits the status, keeps a preset type, writes the encoding, and JSONP wraps it as callback(...); (C19_json, C19_jsonp); an encoding failure is recorded in the error list and nothing panics (C19_encode_error); render.Auto picks the renderer of the first supported type listed in Accept, text/plain for an empty list, an error when nothing is supported (C19_accept_first, C19_accept_none, C19_accept_empty). F10 is a refuted witness. Tie to the code: all helpers x statuses x values (HTML, unicode, control characters, nested maps, structs, byte slices, an unencodable value) x preset/absent Content-Type and 15 Accept headers; status, Content-Type at commit, body bytes or decodability back to the value, error count and Location are compared with the extracted model.",
+        note="PARTIAL: encoding/json and encoding/xml are assumed (section variables); whether a value can be encoded is an oracle input of the model and decodability of the body is sampled by the harness. http.Error / http.Redirect and ParseAccept are modelled. Note: render.Auto treats text/html as supported but renders nothing for it (the model follows the code). Trusted: Coq kernel, extraction, driver, harness.",
+        technique="Coq proof of status / content-type / negotiation logic over the writer model (encoders as parameters) + sampled decodability exploration"),
+    theorems=["C19_blob", "C19_no_content", "C19_http_error", "C19_no_override", "C19_json", "C19_jsonp", "C19_encode_error", "C19_accept_first", "C19_accept_none", "C19_accept_empty"],
+    n=dict(quick=4000, thorough=60000),
+    consts=[],
+    rule="cases: (a) helper in {Text, HTML, JSON, JSONBytes, JSONP, XML, Blob, Stream, NoContent, Redirect, HTTPError} x status in {200,201,202,400,404,500,0} x value "
+         "(strings with HTML / unicode / control characters / quotes, nested maps, structs, byte slices, int slices, an unencodable value) x preset or absent "
+         "Content-Type; (b) render.Auto with 15 Accept headers (empty, single, ordered lists, q parameters, unsupported types, stray commas). Observed: committed status, "
+         "Content-Type at commit, body (bytes, or for JSON/JSONP/XML whether it decodes back to the value), number of recorded errors, Location. "
+         "Non-trivial = case with a preset Content-Type or a negotiation case.",
+    trusted_base=["ASSUMED (section variables; whether a value can be encoded is an oracle input, decodability is sampled by the tie): encoding/json, encoding/xml; modelled: net/http http.Error / http.Redirect, goutil httpreq.ParseAccept"],
+    assumptions=["handlers reach the writer through the context helpers on a fresh response"],
 )
